@@ -103,6 +103,29 @@ fn check_word(word: &[usize], gens: &[Gen], r: &mut Report) {
         md = mul(&md, &bd);
     }
     let mf = d4(&m);
+    // the word followed by a projection: then() / compose() with a projective matrix, applied to points, equals the
+    // projection of the transformed point - all four homogeneous components
+    {
+        let mv: Mat4x4<RealToReal<3, World, View>> = m.to();
+        let projs: [(&str, Mat4x4<RealToProj<View>>); 3] = [("perspective(1,1,0.1..100)", perspective(1.0, 1.0, 0.1..100.0)), ("perspective(2,1.5,1..10)", perspective(2.0, 1.5, 1.0..10.0)), ("orthographic", orthographic(pt3(-2.0, -1.0, 0.5), pt3(3.0, 1.0, 8.0)))];
+        for (pn, proj) in &projs {
+            let (pm, pc) = (mv.then(proj), proj.compose(&mv));
+            if pm.0 != pc.0 { r.violation(key("then-vs-compose"), format!("real.then({pn}) != {pn}.compose(real)"), case()); return; }
+            let pd: D4 = proj.0.map(|row| row.map(|x| x as f64));
+            let full = mul(&pd, &mf);
+            for p in probes() {
+                let got = pm.apply(&pt3::<f32, World>(p[0], p[1], p[2])).0;
+                let seq = proj.apply(&mv.apply_pt(&pt3::<f32, World>(p[0], p[1], p[2]))).0;
+                let h = [p[0] as f64, p[1] as f64, p[2] as f64, 1.0];
+                let want: [f64; 4] = std::array::from_fn(|i| (0..4).map(|k| full[i][k] * h[k]).sum());
+                let mag = want.iter().fold(1.0f64, |a, x| a.max(x.abs())).max(mf.iter().flatten().chain(pd.iter().flatten()).fold(0.0, |a: f64, x| a.max(x.abs())));
+                for k in 0..4 {
+                    r.margin("proj-compose-apply", (got[k] as f64 - want[k]).abs().max((seq[k] as f64 - want[k]).abs()), 1e-5 * mag);
+                    if (got[k] as f64 - want[k]).abs() > 1e-5 * mag || (seq[k] as f64 - want[k]).abs() > 1e-5 * mag { r.violation(key("proj-compose-apply"), format!("{pn}, probe {p:?}: (word then projection).apply = {got:?}, projection.apply(word.apply_pt) = {seq:?}, f64 = {want:?}"), case()); return; }
+                }
+            }
+        }
+    }
     // determinant vs f64 cofactor determinant of the linear part
     let dref = det3(&mf);
     let had: f64 = (0..3).map(|i| (0..3).map(|j| mf[i][j] * mf[i][j]).sum::<f64>().sqrt()).product();
@@ -258,7 +281,7 @@ fn run_algebra(cfg: &Cfg) -> ! {
     rep.sample(0, || obj! {"word" => "rotate_z(90) . scale[1,-2,0.5] . translate[-1000,0,0.5]", "probe" => vec![-1.0f32, -3.0, 7.0]});
     rep.sample(1, || obj! {"generators" => gens.iter().map(|g| g.name.clone()).collect::<Vec<_>>()});
     rep.finish(cfg, "exploration",
-        "all words of length <= L (quick 2, thorough 3) over a generator alphabet of translations, (non-)uniform/negative scalings, rotations about each axis by 12 angles incl. multiples of 90 degrees, 90.001, -89.99, 240 turns + 45 degrees and -123456.7 degrees, orient_y/orient_z on non-perpendicular inputs, permutation/shear bases; per word: then == compose swapped (bit-exact), compose.apply == sequential application == f64 product on 27 probes, determinant vs f64 cofactors and multiplicativity, and for cond <= 1e3 inverse*M and M*inverse == I within 2e-5*cond (f64 evaluation of the f32 matrices); rotations: det 1 and orthonormal columns within 4e-6, transpose == inverse within 1e-5, lengths preserved within 1e-5; constructor defining effects on a probe lattice; 3x3 compose/apply/transpose on literal matrices. non-trivial = invertible well-conditioned word fully judged.",
+        "all words of length <= L (quick 2, thorough 3) over a generator alphabet of translations, (non-)uniform/negative scalings, rotations about each axis by 12 angles incl. multiples of 90 degrees, 90.001, -89.99, 240 turns + 45 degrees and -123456.7 degrees, orient_y/orient_z on non-perpendicular inputs, permutation/shear bases; per word: then == compose swapped (bit-exact), the word followed by each of three projections (then/compose with a projective matrix, all four homogeneous components vs f64), compose.apply == sequential application == f64 product on 27 probes, determinant vs f64 cofactors and multiplicativity, and for cond <= 1e3 inverse*M and M*inverse == I within 2e-5*cond (f64 evaluation of the f32 matrices); rotations: det 1 and orthonormal columns within 4e-6, transpose == inverse within 1e-5, lengths preserved within 1e-5; constructor defining effects on a probe lattice; 3x3 compose/apply/transpose on literal matrices. non-trivial = invertible well-conditioned word fully judged.",
         &["condition estimated as ||A||_F ||A^-1||_F / 3 on the linear part in f64", "apply() on Vec3 translates (documented behaviour), so vector effects are judged as implemented for points"])
 }
 
@@ -345,14 +368,14 @@ fn check_ortho(i: u64, r: &mut Report) {
 
 fn check_viewport(l: u32, t: u32, rr: u32, b: u32, r: &mut Report) {
     r.eval();
-    let m = viewport(pt2(l, t)..pt2(rr, b));
     let case = || obj! {"kind" => "viewport", "rect" => vec![l, t, rr, b]};
+    let m = match caught(|| viewport(pt2(l, t)..pt2(rr, b))) { Ok(m) => m, Err(p) => { r.violation(format!("viewport-panic|{l},{t},{rr},{b}"), format!("viewport({l},{t})..({rr},{b}) panicked: {p}"), case()); return; } };
     for (nx, ny, nz) in [(-1.0f32, -1.0f32, 0.25f32), (1.0, 1.0, 0.5), (0.0, 0.0, 1.0), (-1.0, 1.0, 0.0), (0.5, -0.25, 0.75), (1.0, -1.0, 2.0)] {
         let got = m.apply_pt(&pt3(nx, ny, nz)).0;
         let want = [l as f64 + (nx as f64 + 1.0) / 2.0 * (rr as f64 - l as f64), t as f64 + (ny as f64 + 1.0) / 2.0 * (b as f64 - t as f64), nz as f64];
         r.margin("viewport", (0..3).map(|k| (got[k] as f64 - want[k]).abs() / (1.0 + want[k].abs())).fold(0.0, f64::max), 2e-6);
         if (0..3).any(|k| (got[k] as f64 - want[k]).abs() > 2e-6 * (1.0 + want[k].abs())) {
-            let odd = if (rr - l) % 2 == 1 || (b - t) % 2 == 1 { "odd-size" } else { "even-size" };
+            let odd = if rr < l || b < t { "mirrored" } else if (rr - l) % 2 == 1 || (b - t) % 2 == 1 { "odd-size" } else { "even-size" };
             r.violation(format!("viewport|{odd}|{l},{t},{rr},{b}|ndc=({nx},{ny})"), format!("viewport({l},{t})..({rr},{b}) maps NDC ({nx},{ny},{nz}) to {got:?}, expected {want:?}"), case());
             return;
         }
@@ -435,6 +458,34 @@ fn check_camera(i: u64, r: &mut Report) {
 
 /// azimuths: -180..180 in 15-degree steps, then four beyond half a turn (rotate_to must wrap them, not clamp)
 fn fp_az(i: u64) -> f32 { let k = i / 54 % 29; if k < 25 { k as f32 * 15.0 - 180.0 } else { [270.0f32, -200.0, 540.0, 725.0][(k - 25) as usize] } }
+
+/// Camera::viewport accepts every range form; whatever the spelling, the result is the request intersected with the frame.
+fn check_camera_range_forms(i: u64, r: &mut Report) {
+    r.eval();
+    let dims = [(8u32, 8u32), (16, 9), (5, 7)][(i % 3) as usize];
+    let form = i / 3;
+    let base = || Camera::new(dims).mode(Mat4x4::<RealToReal<3, World, View>>::identity());
+    // (the camera with the requested form, the explicit rectangle it means)
+    let (cam, name, rect): (Result<_, String>, &str, (u32, u32, u32, u32)) = match form {
+        0 => (caught(|| base().viewport((..6u32, 2u32..5))), "(..6, 2..5)", (0, 2, 6, 5)),
+        1 => (caught(|| base().viewport((1u32..6, ..=3u32))), "(1..6, ..=3)", (1, 0, 6, 4)),
+        2 => (caught(|| base().viewport((.., ..))), "(.., ..)", (0, 0, u32::MAX, u32::MAX)),
+        3 => (caught(|| base().viewport(..)), "..", (0, 0, u32::MAX, u32::MAX)),
+        4 => (caught(|| base().viewport((2u32.., 1u32..))), "(2.., 1..)", (2, 1, u32::MAX, u32::MAX)),
+        5 => (caught(|| base().viewport((..600u32, 3u32..460))), "(..600, 3..460)", (0, 3, 600, 460)),
+        _ => (caught(|| base().viewport((0u32..=4, 1u32..=2))), "(0..=4, 1..=2)", (0, 1, 5, 3)),
+    };
+    let case = || obj! {"kind" => "camera-forms", "i" => i};
+    let cam = match cam { Ok(c) => c, Err(p) => { r.violation(format!("camera-setup-panic|{dims:?}|{name}"), format!("Camera::viewport({name}) on a {dims:?} frame panicked: {p}"), case()); return; } };
+    let (el, et, er, eb) = (rect.0.min(dims.0), rect.1.min(dims.1), rect.2.min(dims.0), rect.3.min(dims.1));
+    for (nx, ny) in [(-1.0f32, -1.0f32), (1.0, 1.0), (0.0, 0.5)] {
+        let s = cam.viewport.apply_pt(&pt3(nx, ny, 1.0)).0;
+        let want = [el as f64 + (nx as f64 + 1.0) / 2.0 * (er as f64 - el as f64), et as f64 + (ny as f64 + 1.0) / 2.0 * (eb as f64 - et as f64)];
+        if (s[0] as f64 - want[0]).abs() > 1e-5 * (1.0 + want[0]) || (s[1] as f64 - want[1]).abs() > 1e-5 * (1.0 + want[1]) { r.violation(format!("camera-matrix|forms|{dims:?}|{name}"), format!("Camera::viewport({name}) on a {dims:?} frame maps NDC ({nx},{ny}) to {s:?}, expected {want:?} (rectangle {el},{et}..{er},{eb})"), case()); return; }
+    }
+    if cam.dims != (er - el, eb - et) { r.violation(format!("camera-dims|forms|{dims:?}|{name}"), format!("Camera::viewport({name}) on a {dims:?} frame has dims {:?}, expected {:?}", cam.dims, (er - el, eb - et)), case()); return; }
+    r.nontrivial();
+}
 
 fn check_first_person(i: u64, r: &mut Report) {
     r.eval();
@@ -545,8 +596,11 @@ fn run_proj(cfg: &Cfg) -> ! {
     let mut rects = vec![];
     for l in 0..=6u32 { for rr in l + 1..=7 { for t in 0..=6u32 { for b in t + 1..=7 { rects.push((l, t, rr, b)); } } } }
     rects.extend([(20, 10, 620, 470), (0, 0, 101, 75), (3, 4, 324, 205), (0, 0, 1, 1), (10, 10, 11, 4000)]);
+    // mirrored rectangles (end before start on one or both axes: the y-up idiom pt2(0,h)..pt2(w,0))
+    rects.extend([(0, 480, 640, 0), (640, 0, 0, 480), (640, 480, 0, 0), (7, 2, 3, 5), (3, 5, 7, 2), (5, 5, 2, 1), (0, 7, 8, 0), (101, 75, 0, 0)]);
     rep.merge(par_range(cfg, rects.len() as u64, |i, r| { let (l, t, rr, b) = rects[i as usize]; check_viewport(l, t, rr, b, r); }));
     rep.merge(par_range(cfg, 144 * 10 * 2, check_camera));
+    rep.merge(par_range(cfg, 21, check_camera_range_forms));
     // FirstPerson::default() is FirstPerson::new(): same view transform, also after a translate (nothing resets the heading)
     {
         rep.eval();
@@ -562,7 +616,7 @@ fn run_proj(cfg: &Cfg) -> ! {
     let _ = <FirstPerson as Mode>::world_to_view;
     rep.sample(0, || obj! {"perspective" => "focal 2, aspect 2.35, near..far 0.01..10, probe (u,v,z) = (1-2e-4, -1.5, far)", "viewport" => vec![3, 4, 324, 205], "camera" => "frame 5x7, requested (3..40, 0..5), focal 1, world point (-1.2,0.9,4)", "first_person" => "pos (-2,0,3.5), az 165, alt 90; look_at straight down; translate (0.5,-2,3)"});
     rep.finish(cfg, "exploration",
-        "perspective: 5 focal x 4 aspect x 4 near/far x a 9x9x11 probe lattice in frustum coordinates (inside, on every face, +-2e-4 off, behind the eye): inside iff inside the clip volume, near/far to -1/+1, monotone depth, w = depth; orthographic boxes likewise; viewport: all rectangles with corners in 0..7 plus large/odd ones map the NDC square onto the rectangle; camera: 4 frame sizes x (5 requested rectangles, partly outside the frame | no viewport() call at all = whole frame) x 3 focal ratios x perspective/orthographic x 10 world points (orthographic also with the projection set before the viewport): matrix path vs pinhole pixel/depth, and a rendered half-pixel triangle lights only pixels near the prediction and inside viewport∩frame; first person: 6 operation histories (fresh; after rotate_to; after look_at; after two relative rotations; after translate+look_at; after a near-vertical rotate_to) x 27 positions x (29 azimuths incl. 270, -200, 540, 725 degrees x 8 altitudes incl. +-90 | 16 look-at directions incl. straight up/down and 0.06-6 degrees off vertical x 2 distances): rigid (det +1, orthonormal), position to origin, heading/target onto +z, translate displaces along right / up / horizontal forward. non-trivial = case fully judged with a decisive (non-band) outcome.",
+        "perspective: 5 focal x 4 aspect x 4 near/far x a 9x9x11 probe lattice in frustum coordinates (inside, on every face, +-2e-4 off, behind the eye): inside iff inside the clip volume, near/far to -1/+1, monotone depth, w = depth; orthographic boxes likewise; viewport: all rectangles with corners in 0..7 plus large/odd ones and rectangles mirrored on one or both axes map the NDC square onto the rectangle; camera: 4 frame sizes x (5 requested rectangles, partly outside the frame | no viewport() call at all = whole frame) x 3 focal ratios x perspective/orthographic x 10 world points (orthographic also with the projection set before the viewport): matrix path vs pinhole pixel/depth, and a rendered half-pixel triangle lights only pixels near the prediction and inside viewport∩frame; first person: 6 operation histories (fresh; after rotate_to; after look_at; after two relative rotations; after translate+look_at; after a near-vertical rotate_to) x 27 positions x (29 azimuths incl. 270, -200, 540, 725 degrees x 8 altitudes incl. +-90 | 16 look-at directions incl. straight up/down and 0.06-6 degrees off vertical x 2 distances): rigid (det +1, orthonormal), position to origin, heading/target onto +z, translate displaces along right / up / horizontal forward. non-trivial = case fully judged with a decisive (non-band) outcome.",
         &["probe bands: 1e-4 relative around frustum faces are exempt", "pinhole model: pixel = centre + focal*W/2 * (x/z, y/z), depth 1/z, as documented for perspective() and viewport()"])
 }
 
@@ -580,6 +634,7 @@ fn main() {
                 "ortho" => check_ortho(i, r),
                 "viewport" => { let v: Vec<u32> = c.get("rect").unwrap().as_arr().unwrap().iter().map(|x| x.as_u64().unwrap() as u32).collect(); check_viewport(v[0], v[1], v[2], v[3], r) }
                 "camera" => check_camera(i, r),
+                "camera-forms" => check_camera_range_forms(i, r),
                 "fp-default" => { let (d, n) = (FirstPerson::default(), FirstPerson::new()); if caught(|| d.world_to_view().0) != caught(|| n.world_to_view().0) || caught(|| d.world_to_view()).is_err() { r.violation("fp-default|".into(), "FirstPerson::default() differs from new()".into(), J::Null); } }
                 "fp" => check_first_person(i, r),
                 k => machinery_error(&format!("unknown replay kind {k}")),
